@@ -22,6 +22,9 @@
 #ifndef VF_FMASK
 #define VF_FMASK 0
 #endif
+#ifndef VF_NFAULTS
+#define VF_NFAULTS 1
+#endif
 #ifndef VF_ALIAS
 #define VF_ALIAS 0
 #endif
@@ -164,7 +167,7 @@ extern "C" void vf_main(void) {
     // ---- the operation
     int threw = 0;
     std::size_t ret = 0; int have_ret = 0; uint32_t retval = 0; int have_retval = 0;
-    vf_fault_arm(VF_FMASK, fat1, fat2);
+    vf_fault_arm(VF_FMASK, fat1, VF_NFAULTS >= 2 ? fat2 : 0);
     try {
 #if VF_ALIAS
       const T& argref = v[ai];
